@@ -2,6 +2,20 @@
 # stage[tier] = (shards, cases per shard)
 
 PROPS = {
+    "C01": dict(
+        stages=[dict(test="TestC01", quick=(16, 40), thorough=(16, 2500), timeout=dict(quick=600, thorough=3300))],
+        rule="case = validator set (3-7, some inactive), expiration 1..6|20, max report size, and a list of 15-60 late-bound ops "
+             "(request / report variants exact|missing|extra|wrong|oversize|exit|empty / burst of reports / end block / activate) "
+             "run on the real app; non-trivial = >=1 request resolved by reports AND >=1 of {rejected report, report accepted "
+             "after resolve, report in the expiry block, EXPIRED result, two requests resolved in one block}; distinct = hash of case JSON",
+        explanation="reference model of the request life cycle (accept/reject per report, resolve at end of the block of the min_count-th "
+                    "accepted report, expiry by block count) compared with the chain after every block: tx codes, Result fields incl. "
+                    "script output recomputed from the model's reports, immutability of published results, exactly one resolve event per "
+                    "request, stored reports, expiry cursor",
+        assumptions=["request acceptance and the chosen validator set are taken from the chain (C09 decides the choice)",
+                     "script gas exhaustion and IBC-originated requests are not generated"],
+        nt_floor=0.2,
+    ),
     "C09": dict(
         stages=[
             dict(test="TestC09Pure", quick=(8, 8000), thorough=(16, 400000), timeout=dict(quick=600, thorough=3000)),
